@@ -328,7 +328,7 @@ Theorem phase2_post : forall alg p g1 g2,
                layering_ok g1 g2a) ->
   phase2 alg p g1 = Ok g2 -> p2_post g1 g2.
 Proof.
-  intros alg p g1 g2 N1 LO H. unfold phase2 in H. rewrite N1 in H.
+  intros alg p g1 g2 N1 LO H. unfold phase2, assign_layers in H. rewrite N1 in H.
   destruct (match alg with LongestPath => exec_longest_path g1 | NetworkSimplex => exec_network_simplex p g1 end)
     as [g2a|] eqn:E; cbn [bind] in H; [|discriminate].
   specialize (LO g2a eq_refl). destruct LO as [A1 A2 A3 A4 A5 A6 A7 A8].
